@@ -169,9 +169,14 @@ def gradient_norm(ctx):
     # the gradient is that of the registered objective: the raw cost WITH the registered ExtraArgs (inst._cost[2]; None before the
     # first registration, hence the accepted `or ()` spelling)
     eq = False
-    for extra in ('*(inst._cost[2] or ())', '*inst._cost[2]'):
-        want = PC.spec_formula('(g0 is None and Lnorm(approx_fprime(inst.bestSolution, inst._cost[1], _epsilon, %s), p=norm, axis=0) <= tolerance) or '
-                               '(not (g0 is None) and Lnorm(g0, p=norm, axis=0) <= tolerance)' % extra, pre)
+    G = 'Lnorm(approx_fprime(inst.bestSolution, inst._cost[1], _epsilon%s), p=norm, axis=0) <= tolerance'
+    specs = ['(g0 is None and %s) or (not (g0 is None) and Lnorm(g0, p=norm, axis=0) <= tolerance)' % (G % (', ' + extra))
+             for extra in ('*inst._cost[2]',)]        # (`*(args or ())` is NOT accepted: the truth value of an ndarray of ExtraArgs raises, a falsy one is dropped)
+    # ... or with the None case spelled out (no ExtraArgs registered yet: the cost is called with x alone)
+    specs.append('(g0 is None and inst._cost[2] is None and %s) or (g0 is None and not (inst._cost[2] is None) and %s) or (not (g0 is None) and Lnorm(g0, p=norm, axis=0) <= tolerance)'
+                 % (G % '', G % ', *inst._cost[2]'))
+    for spec in specs:
+        want = PC.spec_formula(spec, pre)
         e_, cex, rows = PC.equivalent(got, want)
         ctx.stats['truth_table_rows'] += rows
         eq = eq or e_
